@@ -40,7 +40,8 @@ NAMES = ['a', 'b', 'c', 'pkg_x', 'mod_y', '_p', 'test__init__', 'run__main__', '
 def required_cells(tier):
     return ['resolve:found-module', 'resolve:found-package', 'resolve:absent', 'resolve:broken-chain',
             'resolve:module-and-package', 'roundtrip', 'split', 'import', 'resolve:main-file',
-            'import:failing-leaves-syspath', 'resolve:module-beside-plain-directory', 'import:root-already-on-syspath', 'resolve:extension-module', 'installation:file', 'installation:roundtrip', 'history:resolve-after-deleted', 'history:resolve-after-created', 'history:init-removed', 'history:init-added', 'path-to-name:every-file']
+            'import:failing-leaves-syspath', 'resolve:module-beside-plain-directory', 'import:root-already-on-syspath', 'resolve:extension-module', 'installation:file', 'installation:roundtrip', 'history:resolve-after-deleted', 'history:resolve-after-created', 'history:init-removed', 'history:init-added', 'path-to-name:every-file', 'search-path-spelling:trailing-sep', 'search-path-spelling:symlink',
+            'search-path-spelling:dot']
 
 
 def build(rng, root, uniq):
@@ -103,6 +104,12 @@ def oracle(root, modname):
                 return None, 'broken-chain'
             path = spec.submodule_search_locations[0]
     return spec.origin, ('found-package' if spec.submodule_search_locations else 'found-module')
+
+
+def source_beside_extension(got, exp):
+    """F19's mechanism: the interpreter names an extension module, xdoctest the source file next to it"""
+    return bool(got and exp and exp.endswith(tuple(M.EXTENSION_SUFFIXES)) and got.endswith('.py') and
+                os.path.realpath(os.path.dirname(got)) == os.path.realpath(os.path.dirname(exp)))
 
 
 def model_path_to_name(path):
@@ -176,6 +183,8 @@ def check_tree(ctx, idx, seed):
     uniq = 's%dx%dx%d' % (ctx.seed, ctx.shard, idx)
     try:
         build(rng, root, uniq)
+        link = root + '_link'
+        os.symlink(root, link)
         listing = sorted(os.path.relpath(os.path.join(dp, f), root) for dp, _, fn in os.walk(root) for f in fn)
         for name in all_names(root):
             ctx.evaluation()
@@ -183,19 +192,24 @@ def check_tree(ctx, idx, seed):
             exp, cls = oracle(root, name)
             if '.' in name or os.path.isdir(os.path.join(root, name)):
                 ctx.nontrivial((repr(listing), name))
+            # the search-path entry may be spelled in several ways that all denote the same directory
+            spelling = rng.choice(['plain', 'plain', 'plain', 'trailing-sep', 'double-sep', 'dot', 'symlink', 'symlink-sep'])
+            sp = {'plain': root, 'trailing-sep': root + os.sep, 'double-sep': root + os.sep + os.sep,
+                  'dot': os.path.join(root, '.'), 'symlink': link, 'symlink-sep': link + os.sep}[spelling]
+            case['search_path_spelling'] = spelling
             try:
-                got = util_import.modname_to_modpath(name, hide_init=False, sys_path=[root])
+                got = util_import.modname_to_modpath(name, hide_init=False, sys_path=[sp])
             except Exception as ex:
-                ctx.violation('resolve-raised', 'modname_to_modpath(%r) raised %r; tree %r' % (name, ex, listing), case)
+                ctx.violation('resolve-raised', 'modname_to_modpath(%r, sys_path=[%r]) raised %r; tree %r' % (name, sp, ex, listing), case)
                 continue
             ctx.event('resolutions_compared')
+            if got and spelling != 'plain':
+                ctx.cell('search-path-spelling:' + spelling)
             if (got and os.path.realpath(got)) != (exp and os.path.realpath(exp)):
                 ctx.violation('resolve', 'modname_to_modpath(%r, sys_path=[root]) -> %r but the import system would load %r '
                               '(%s); tree %r' % (name, got and os.path.relpath(got, root), exp and os.path.relpath(exp, root),
                                                  cls, listing), case, observed=got, expected=exp,
-                              source_beside_extension=bool(got and exp and exp.endswith(tuple(M.EXTENSION_SUFFIXES)) and
-                                                           got.endswith('.py') and
-                                                           os.path.dirname(got) == os.path.dirname(exp)))
+                              source_beside_extension=source_beside_extension(got, exp))
                 continue
             ctx.cell('resolve:' + cls)
             parts = name.split('.')
@@ -299,8 +313,7 @@ def check_tree(ctx, idx, seed):
                     ctx.violation('resolve-after-change', 'after the file of %r was %s (same process, resolved before): '
                                   'modname_to_modpath -> %r, the import system would load %r' % (n, what, got, exp),
                                   dict(case, name=n), observed=got, expected=exp,
-                                  source_beside_extension=bool(got and exp and exp.endswith(tuple(M.EXTENSION_SUFFIXES)) and
-                                                               got.endswith('.py') and os.path.dirname(got) == os.path.dirname(exp)))
+                                  source_beside_extension=source_beside_extension(got, exp))
                 else:
                     ctx.cell('history:resolve-after-' + what)
         if check_every_file(ctx, root, {'index': idx, 'case_seed': seed}, 'as built'):
@@ -327,8 +340,7 @@ def check_tree(ctx, idx, seed):
                     ctx.evaluation()
                     case = {'index': idx, 'case_seed': seed, 'name': name, 'history': flipped[0]}
                     got = util_import.modname_to_modpath(name, hide_init=False, sys_path=[root])
-                    sbe = bool(got and exp and exp.endswith(tuple(M.EXTENSION_SUFFIXES)) and got.endswith('.py') and
-                               os.path.dirname(got) == os.path.dirname(exp))
+                    sbe = source_beside_extension(got, exp)
                     if (got and os.path.realpath(got)) != (exp and os.path.realpath(exp)):
                         ctx.violation('resolve-after-change', 'after %s in %r (same process, everything resolved before): '
                                       'modname_to_modpath(%r) -> %r, the import system would load %r' % (
@@ -356,6 +368,10 @@ def check_tree(ctx, idx, seed):
             ctx.sample({'tree': listing, 'names_resolved': all_names(root)[:12]}, limit=2)
     finally:
         shutil.rmtree(root, ignore_errors=True)
+        try:
+            os.unlink(root + '_link')
+        except OSError:
+            pass
         for m in [m for m in sys.modules if uniq in m]:
             del sys.modules[m]
 
@@ -397,8 +413,7 @@ def check_installation(ctx):
         if (got and os.path.realpath(got)) != (real and os.path.realpath(real)):
             ctx.violation('resolve', 'modname_to_modpath(%r) -> %r, the import system locates %r (sys.path as it is)' % (n, got, real),
                           case, observed=got, expected=real,
-                          source_beside_extension=bool(got and real and real.endswith(tuple(M.EXTENSION_SUFFIXES)) and
-                                                       got.endswith('.py') and os.path.dirname(got) == os.path.dirname(real)))
+                          source_beside_extension=source_beside_extension(got, real))
             continue
         ctx.cell('installation:' + ('file' if real else 'not-a-file'))
         if real and '.' in n:
